@@ -344,8 +344,13 @@ def finalize(pid, tier, seed, merged, known, mod, wall, is_replay, repo):
       "wall_s": round(wall, 2),
       "violations": len(violations),
   }
-  os.makedirs(os.path.join(HERE, "evidence"), exist_ok=True)
-  with open(os.path.join(HERE, "evidence", pid + ".json"), "w") as f:
+  # evidence/ describes runs against /repo itself; runs of the harness's own tools
+  # against a scratch copy (VERIF_REPO=..., tools/seedcheck.py, tools/mutate.py) and
+  # single-case replays are recorded under out/evidence instead
+  evdir = os.path.join(HERE, "evidence") if (repo == "/repo" and not is_replay) \
+      else os.path.join(HERE, "out", "evidence")
+  os.makedirs(evdir, exist_ok=True)
+  with open(os.path.join(evdir, pid + ".json"), "w") as f:
     json.dump(ev, f, indent=1, sort_keys=True, default=str)
     f.write("\n")
   print("%s tier=%s seed=%d evaluations=%d nontrivial=%d violations=%d "
